@@ -1181,3 +1181,24 @@ package xmpp
 //@   ensures[C12] old(s.state) & Ready != 0 ==> !ok && s.in.Info.To == old(s.in.Info.To) && s.out.Info.From == old(s.out.Info.From)
 //@   ensures[C12] old(s.state) & Ready == 0 ==> ok && s.in.Info.To == j && s.out.Info.From == j
 //@   ensures[C12] s.in.Info.From == old(s.in.Info.From) && s.out.Info.To == old(s.out.Info.To) && s.state == old(s.state)
+
+// ---------------------------------------------------------------------------
+// C03/C04: the two SASL failure helpers. A failure is sent whole and flushed
+// (both errors reported); a received element is taken for a failure exactly
+// when it is <failure/> in the SASL namespace, and then decoded from the
+// decoder it came from.
+//@ func sendSASLError
+//@   noswallow[C03,C04]
+//@   ghost flushed bool = false
+//@   callsite Flush#1
+//@     assert[C03,C04] arg0 == w
+//@     after: flushed = ret0 == nil
+//@   ensures[C03,C04] result == nil ==> flushed
+//@ func decodeIfSASLErr
+//@   ghost decoded bool = false
+//@   callsite (*encoding/xml.Decoder).DecodeElement#1
+//@     assert[C03,C04] arg0 == d
+//@     after: decoded = true
+//@   ensures[C03,C04] result1 <==> start.Name.Local == "failure" && start.Name.Space == "urn:ietf:params:xml:ns:xmpp-sasl"
+//@   ensures[C03,C04] result1 <==> decoded
+//@   ensures[C03,C04] !result1 ==> result2 == nil
